@@ -118,6 +118,12 @@ func (r *Run) Violate(key, what string, replay interface{}) {
 		v.Count++
 		return
 	}
+	what = strings.Map(func(c rune) rune { // values quoted from a decode may hold anything: keep the report one printable line
+		if c < 0x20 || c == 0x7f || c == 0xFFFD {
+			return '?'
+		}
+		return c
+	}, what)
 	v := &Violation{Key: key, What: what, Count: 1}
 	for _, f := range r.findings {
 		if f.Property == r.Prop && f.Key == key && f.Status == "known" {
